@@ -94,6 +94,9 @@ func solveOne(res *FuncResult, ob *Obligation, cfg *SolverCfg, idx int) {
 				sub := &Obligation{Name: ob.Name, Kind: ob.Kind, Prefix: ob.Prefix, Reach: ob.Reach, Cond: part, splitDone: true}
 				solveOne(res, sub, cfg, idx*1000+pi)
 				total += sub.Ms
+				if sub.Ms > ob.MaxPartMs {
+					ob.MaxPartMs = sub.Ms
+				}
 				if sub.Status != "discharged" {
 					all = false
 					if sub.Status == "refuted" {
